@@ -58,3 +58,14 @@ add("C12",
     "synchronous scheduling, and an exception injected at a symbolic scheduler call; termination iteration, no start after the criterion, nothing in progress afterwards, counters",
     "symbolic execution of the real tuning loop (CrossHair engine + z3); termination monitor recomputes the criterion from its own trace",
     "DESIGN.md 4 C12", note=LOOP_NOTE)
+add("C17",
+    "bounded model checking: (a) TuningStatus / MetricsStatistics / best-trial reporting with symbolic values (real, NaN, string), symbolic trial assignment, mode lists; "
+    "(b) whole-run BMC of the real Tuner.run with StoreResultsCallback: rows == delivered results in order with id, configuration at delivery (changed on resume), decision, time stamp; "
+    "best_config attains the optimum over everything handed to the loop. CSV round trip only as concrete supplement on replayed witnesses",
+    "symbolic execution of the real status/callback/tuner code (CrossHair engine + z3), fold-based oracle over the same symbolic values",
+    "DESIGN.md 4 C17", note=LOOP_NOTE)
+add("C20",
+    "whole-run BMC of the real Tuner.run with REAL PopulationBasedTraining / promotion Hyperband / synchronous Hyperband and a scripted backend tracking checkpoint existence; metric values symbolic "
+    "(they decide who is cloned/promoted/stopped), order and batching of results inside a poll symbolic; resume / warm start only while the checkpoint exists, no deletion for running trials",
+    "symbolic execution of the real tuning loop + real schedulers (CrossHair engine + z3), checkpoint-existence monitor in the scripted backend",
+    "DESIGN.md 4 C20", note=LOOP_NOTE)
